@@ -31,9 +31,28 @@ func init() {
 
 func runC10(c *Ctx) {
 	p := c.Progs["mod"]
-	c.Rule("C10.L", "lockset on sessions.Cache.cache; miss and insertion under one hold; keyed by the session ID itself", 3)
+	c.Rule("C10.L", "lockset on sessions.Cache.cache; miss and insertion under one hold; keyed by the session ID itself; sessions leave only by LRU eviction", 4)
 	checkGuards(c, p, "C10.L", agentGuards[:1])
 	ruleCheckThenActOneHold(c, p, "C10.L", "agent/sessions.(*Cache).cachedCookieJar")
+	// a session leaves the cache only by being the least recently used one: nothing removes
+	// sessions on purpose (a writer that "releases" its session after a failed write cannot tell
+	// a session it created from one the client already had — the established jar is lost)
+	{
+		bad := ""
+		n := 0
+		for _, fn := range p.AllFuncsIn("agent/sessions") {
+			n++
+			EachInstrRaw(fn, func(i ssa.Instruction) {
+				if cc := CallOf(i); cc != nil {
+					switch CalleeName(cc) {
+					case "(*github.com/golang/groupcache/lru.Cache).Remove", "(*github.com/golang/groupcache/lru.Cache).RemoveOldest", "(*github.com/golang/groupcache/lru.Cache).Clear":
+						bad = CalleeName(cc)[strings.LastIndex(CalleeName(cc), ".")+1:] + " in " + FuncName(fn) + " at " + p.Pos(i.Pos())
+					}
+				}
+			})
+		}
+		c.Check("C10.L", "cache:sessions-leave-only-by-lru-eviction", p, 0, bad == "" && n > 0, "no Remove/RemoveOldest/Clear on the session cache in agent/sessions", "sessions are removed from the cache on purpose ("+bad+"): while the session is among the most recently used ones the backend no longer sees the cookies its jar held — the user is logged out by an aborted download or a failed upload")
+	}
 	// the jar of a session is filed under the session ID itself: a derived key (a parsed UUID with
 	// a zero value for what does not parse, a prefix, a hash) files different IDs under one jar
 	if f := c.need(p, "C10.L", "agent/sessions.(*Cache).cachedCookieJar"); f != nil {
@@ -289,7 +308,7 @@ func runC10(c *Ctx) {
 			if v := get("Secure"); v != nil {
 				ok := false
 				if u, isU := v.(*ssa.UnOp); isU && u.Op == token.NOT {
-					ok = PathOf(u.X) == P(wh, 0)+".c.disableSSLForTest"
+					ok = PathOf(u.X) == cacheField(wh, "disableSSLForTest")
 				}
 				c.Check("C10.A", "Secure", p, a.Pos(), ok, "Secure = !cache.disableSSLForTest", "Secure is "+PathOf(v)+", expected the negation of the cache's test-override flag")
 			} else {
@@ -298,14 +317,14 @@ func runC10(c *Ctx) {
 			if v := get("Expires"); v != nil {
 				ok := false
 				if call := CallResult(v, 0, "(time.Time).Add"); call != nil {
-					ok = CallResult(PArgs(&call.Call)[0], 0, "time.Now") != nil && PathOf(PArgs(&call.Call)[1]) == P(wh, 0)+".c.sessionCookieTimeout"
+					ok = CallResult(PArgs(&call.Call)[0], 0, "time.Now") != nil && PathOf(PArgs(&call.Call)[1]) == cacheField(wh, "sessionCookieTimeout")
 				}
 				c.Check("C10.A", "Expires", p, a.Pos(), ok, "Expires = time.Now().Add(cache.sessionCookieTimeout)", "Expires is "+PathOf(v)+", expected time.Now().Add(<configured lifetime>)")
 			} else {
 				c.Bad("C10.A", "Expires", p, a.Pos(), "Expires is not set")
 			}
 			if v := get("Name"); v != nil {
-				c.PathIs("C10.A", "Name", p, a.Pos(), v, "cookie name", P(wh, 0)+".c.sessionCookieName")
+				c.PathIs("C10.A", "Name", p, a.Pos(), v, "cookie name", cacheField(wh, "sessionCookieName"))
 			} else {
 				c.Bad("C10.A", "Name", p, a.Pos(), "Name is not set")
 			}
@@ -383,6 +402,14 @@ func runC10(c *Ctx) {
 		} else {
 			envFor := func(equal bool) Env {
 				return func(x ssa.Value) (constant.Value, bool) {
+					// the configured name handed in as a parameter at the function's only call site
+					if prm, isP := x.(*ssa.Parameter); isP {
+						if a := soleSiteArg(prm); a != nil {
+							if _, f, ok := FieldLoad(a); ok && f == "sessionCookieName" {
+								return constant.MakeString("S"), true
+							}
+						}
+					}
 					if _, f, ok := FieldLoad(x); ok {
 						if f == "sessionCookieName" {
 							return constant.MakeString("S"), true
@@ -502,7 +529,7 @@ func runC10(c *Ctx) {
 	}
 	if ex := c.need(p, "C10.R", "agent/sessions.(*sessionHandler).extractSessionID"); ex != nil {
 		if ck := c.UniqueCall("C10.R", p, ex, false, "(*net/http.Request).Cookie"); ck != nil {
-			c.ArgIs("C10.R", "extract:by-configured-name", p, ck, 1, "session cookie looked up by the configured name", P(ex, 0)+".c.sessionCookieName")
+			c.ArgIs("C10.R", "extract:by-configured-name", p, ck, 1, "session cookie looked up by the configured name", cacheField(ex, "sessionCookieName"))
 			c.ArgIs("C10.R", "extract:from-own-request", p, ck, 0, "looked up on this request", P(ex, 1))
 			okr := true
 			n := 0
@@ -662,4 +689,13 @@ func cookiesFromRead(v ssa.Value, read ssa.Instruction) bool {
 		return true
 	})
 	return ok && n > 0
+}
+
+// cacheField: how a configuration field of the session cache reads inside fn — through the
+// receiver's field c, or directly where a refactoring made the cache itself the receiver.
+func cacheField(fn *ssa.Function, field string) string {
+	if prm := ParamAt(fn, 0); prm != nil && NamedTypeRel(prm.Type()) == "agent/sessions.Cache" {
+		return P(fn, 0) + "." + field
+	}
+	return P(fn, 0) + ".c." + field
 }
